@@ -949,7 +949,17 @@ def gen_addr_fns():
         raise TranslateError(str(e))
 
 
+def gen_limiter_fns():
+    sys.path.insert(0, os.path.dirname(os.path.abspath(__file__)))
+    import translate_limiter
+    try:
+        return translate_limiter.gen(strip_comments(read("node/libs/concurrency/src/limiter/mod.rs")), parse_expr)
+    except translate_limiter.TErr as e:
+        raise TranslateError(f"limiter/mod.rs: {e}")
+
+
 TARGETS = {
+    "LimiterFns": gen_limiter_fns,
     "AddrFns": gen_addr_fns,
     "StoreFns": gen_store_fns,
     "Thresholds": gen_thresholds,
